@@ -3,7 +3,7 @@ import PkgProofs.Lemmas.SpecAlike
 /-!
 # C05 — SpecifierSet is the conjunction of its specifiers; `&` is intersection; `str` round trip
 
-Model: `PkgModel/SpecifierSet.lean` (`SS`).  The `frozenset` of members is a list deduplicated by
+Model: `PkgModel/SpecifierSet.lean` (`SSet`).  The `frozenset` of members is a list deduplicated by
 `Specifier.__eq__` (key `_canonical_spec`, first inserted kept); every function that iterates it takes
 the iteration order `it` explicitly and the theorems hold **for every permutation** `it` of the members.
 
@@ -12,12 +12,12 @@ The one recurring hypothesis, satisfiable (see the examples), is about *members 
   are re-parses of rendered versions and `_version_join` of an empty list; unreachable for constructor-built
   members and parsed candidates, which the correspondence samples).
 "Equal specifiers match alike" (needed because a set keeps one of several equal members) is no hypothesis: it is
-`SS.equal_specs_match_alike`, proved for every operator from C02's invariants of `canonicalize_version`
+`SSet.equal_specs_match_alike`, proved for every operator from C02's invariants of `canonicalize_version`
 (true for `===` since C05-fix-1 and for `~=` since C03-fix-1).  Hashing a member never raises
-(`SS.canonical_isOk`).
+(`SSet.canonical_isOk`).
 -/
 namespace C05
-open Py V S SS
+open Py V S SSet
 
 
 /-- what the constructors establish: members are pairwise non-equal as `Specifier`s -/
@@ -39,10 +39,10 @@ theorem ofSpecs_ok {ms : List Member} {p : Option Bool} {T : SpecSet} (h : ofSpe
     simpa using hall
   · cases h
 
-theorem ofString_ok {s : Str} {p : Option Bool} {T : SpecSet} (h : SS.ofString s p = .ok T) :
+theorem ofString_ok {s : Str} {p : Option Bool} {T : SpecSet} (h : SSet.ofString s p = .ok T) :
     ∃ sps, parseAll (clauses s) = some sps ∧ T = ⟨fromList (sps.map fun sp => (sp, none)), p⟩ ∧
       ∀ sp ∈ sps, sp.canonical.isOk = true := by
-  unfold SS.ofString at h
+  unfold SSet.ofString at h
   split at h
   · cases h
   · rename_i sps hs
@@ -58,10 +58,10 @@ theorem ofSpecs_total (ms : List Member) (p : Option Bool) : ofSpecs ms p = .ok 
 
 /-- `SpecifierSet(str)` raises only `InvalidSpecifier`, and exactly when a clause is not a specifier -/
 theorem ofString_total (s : Str) (p : Option Bool) :
-    SS.ofString s p = match parseAll (clauses s) with
+    SSet.ofString s p = match parseAll (clauses s) with
       | none => .error "InvalidSpecifier"
       | some sps => .ok ⟨fromList (sps.map fun sp => (sp, none)), p⟩ := by
-  unfold SS.ofString
+  unfold SSet.ofString
   cases parseAll (clauses s) with
   | none => rfl
   | some sps => exact ofSpecs_total _ p
@@ -69,7 +69,7 @@ theorem ofString_total (s : Str) (p : Option Bool) :
 theorem ofSpecs_wf {ms : List Member} {p : Option Bool} {T : SpecSet} (h : ofSpecs ms p = .ok T) : WF T := by
   rw [(ofSpecs_ok h).1]; exact nodup_fromList ms
 
-theorem ofString_wf {s : Str} {p : Option Bool} {T : SpecSet} (h : SS.ofString s p = .ok T) : WF T := by
+theorem ofString_wf {s : Str} {p : Option Bool} {T : SpecSet} (h : SSet.ofString s p = .ok T) : WF T := by
   obtain ⟨sps, _, hT, _⟩ := ofString_ok h
   rw [hT]; exact nodup_fromList _
 
@@ -120,8 +120,8 @@ theorem empty_matches_all (pre : Option Bool) (v : Ver) :
     (⟨[], pre⟩ : SpecSet).contains [] v (some true) false = .ok true := rfl
 
 /-- a string holding only commas and white space is the empty set -/
-theorem ofString_empty (s : Str) (p : Option Bool) (h : clauses s = []) : SS.ofString s p = .ok ⟨[], p⟩ := by
-  simp [SS.ofString, h, parseAll, ofSpecs, fromList]
+theorem ofString_empty (s : Str) (p : Option Bool) (h : clauses s = []) : SSet.ofString s p = .ok ⟨[], p⟩ := by
+  simp [SSet.ofString, h, parseAll, ofSpecs, fromList]
 
 example : clauses (Py.ofString " , ,\t,") = [] := by decide
 
@@ -147,7 +147,7 @@ theorem all_mcmp_congr {A B : List Member} {v : Ver}
 theorem mcmp_of_alike {a b : Member} {v : Ver} (h : a.1.compare v = b.1.compare v) : mcmp a v = mcmp b v := by
   simp [mcmp, h]
 
-/-- "equal specifiers match alike" holds for all members: `SS.equal_specs_match_alike` -/
+/-- "equal specifiers match alike" holds for all members: `SSet.equal_specs_match_alike` -/
 theorem matchAlike_all (A B : List Member) : MatchAlike A B :=
   fun a _ b _ hk v => equal_specs_match_alike a.1 b.1 hk v
 
@@ -392,8 +392,8 @@ theorem and_assoc (a b c : SpecSet) :
 
 /-- **`a & b` equals the set parsed from the concatenated clauses**, exactly (same kept representatives) -/
 theorem and_eq_parse_concat (sa sb : Str) (pa pb q : Option Bool) (A B : SpecSet)
-    (ha : SS.ofString sa pa = .ok A) (hb : SS.ofString sb pb = .ok B) (hq : combinePre pa pb = some q) :
-    SS.ofString (sa ++ 44 :: sb) q = A.and B := by
+    (ha : SSet.ofString sa pa = .ok A) (hb : SSet.ofString sb pb = .ok B) (hq : combinePre pa pb = some q) :
+    SSet.ofString (sa ++ 44 :: sb) q = A.and B := by
   obtain ⟨xs, hxs, hA, hcA⟩ := ofString_ok ha
   obtain ⟨ys, hys, hB, hcB⟩ := ofString_ok hb
   have hall : ((xs ++ ys).map fun sp => ((sp, none) : Member)).all (fun m => m.1.canonical.isOk) = true := by
@@ -401,7 +401,7 @@ theorem and_eq_parse_concat (sa sb : Str) (pa pb q : Option Bool) (A B : SpecSet
     rintro m ⟨sp, hsp | hsp, rfl⟩
     · exact hcA sp hsp
     · exact hcB sp hsp
-  simp only [SS.ofString, clauses_append, parseAll_append, hxs, hys, ofSpecs, hall, ↓reduceIte]
+  simp only [SSet.ofString, clauses_append, parseAll_append, hxs, hys, ofSpecs, hall, ↓reduceIte]
   subst hA; subst hB
   simp only [SpecSet.and, hq, List.map_append, union_fromList]
 
@@ -413,7 +413,7 @@ theorem str_perm_invariant (T : SpecSet) (it it' : List Member) (h : it.Perm it'
   rw [sortStr_perm_invariant (h.map fun m => m.1.str)]
 
 /-- the member's own string is a single clean clause that parses back to the member: the model's decidable
-`SS.roundtrips`, which the driver evaluates on every constructed set (`rt=` in `set.parse`) -/
+`SSet.roundtrips`, which the driver evaluates on every constructed set (`rt=` in `set.parse`) -/
 def Roundtrips (sp : Spec) : Prop := roundtrips sp = true
 
 instance (sp : Spec) : Decidable (Roundtrips sp) := by unfold Roundtrips; infer_instance
@@ -464,7 +464,7 @@ for every iteration order, provided every member's own string is a clean single 
 `str_does_not_parse_back_with_comma`). -/
 theorem str_parses_back (T : SpecSet) (hwf : WF T) (it : List Member) (hp : it.Perm T.specs)
     (hrt : ∀ m ∈ T.specs, Roundtrips m.1) :
-    ∃ T', SS.ofString (T.str it) none = .ok T' ∧ T'.eq T = true ∧ T'.len = T.len ∧
+    ∃ T', SSet.ofString (T.str it) none = .ok T' ∧ T'.eq T = true ∧ T'.len = T.len ∧
       ∀ it', it'.Perm T'.specs → T'.str it' = T.str it := by
   have hcan : ∀ m ∈ T.specs, m.1.canonical.isOk = true := fun m _ => canonical_isOk m.1
   obtain ⟨srt, hsp, hsort⟩ := sort_map_str it
@@ -503,7 +503,7 @@ theorem str_parses_back (T : SpecSet) (hwf : WF T) (it : List Member) (hp : it.P
     rintro m ⟨sp, ⟨m0, hm0, rfl⟩, rfl⟩
     exact hcan m0 (hmem m0 hm0)
   have hkeys : keys ms = keys srt := by simp [hms, keys, List.map_map]
-  refine ⟨⟨fromList ms, none⟩, by simp only [SS.ofString, hparse, ofSpecs, ← hms, hall, ↓reduceIte], ?_⟩
+  refine ⟨⟨fromList ms, none⟩, by simp only [SSet.ofString, hparse, ofSpecs, ← hms, hall, ↓reduceIte], ?_⟩
   have hwf' : WF (⟨fromList ms, none⟩ : SpecSet) := nodup_fromList ms
   have heq : (⟨fromList ms, none⟩ : SpecSet).eq T = true := by
     rw [eq_iff hwf' hwf]
@@ -513,7 +513,7 @@ theorem str_parses_back (T : SpecSet) (hwf : WF T) (it : List Member) (hp : it.P
   -- keys of `ms` are already distinct, so nothing is dropped and the strings are the same multiset
   have hnd : (keys ms).Nodup := by
     rw [hkeys]; unfold WF keys at hwf; unfold keys; exact (hsrtT.map fun m => key m.1).nodup_iff.mpr hwf
-  have hfl : ∀ (l acc : List Member), (keys (acc ++ l)).Nodup → l.foldl SS.insert acc = acc ++ l := by
+  have hfl : ∀ (l acc : List Member), (keys (acc ++ l)).Nodup → l.foldl SSet.insert acc = acc ++ l := by
     intro l
     induction l with
     | nil => intro acc _; simp
@@ -545,29 +545,29 @@ private def sp (s : String) : Spec := (parseSpec (Py.ofString s)).getD ⟨.eq, [
 private def ver (s : String) : Ver := (scan (Py.ofString s)).getD ⟨0, [], none, none, none, none⟩
 
 /-- a three-clause set with a respelled duplicate: `>=1.0, <2, >= 1.0.0` keeps two members -/
-example : (SS.ofString (Py.ofString ">=1.0, <2 ,>=1.0.0") none).map (·.len) = .ok 2 := by decide
-example : (SS.ofString (Py.ofString ">=1.0, <2 ,>=1.0.0") none).map (fun T => T.str T.specs) =
+example : (SSet.ofString (Py.ofString ">=1.0, <2 ,>=1.0.0") none).map (·.len) = .ok 2 := by decide
+example : (SSet.ofString (Py.ofString ">=1.0, <2 ,>=1.0.0") none).map (fun T => T.str T.specs) =
     .ok (Py.ofString "<2,>=1.0") := by decide
 example : Roundtrips (sp ">=1.0") ∧ Roundtrips (sp "===1.0") ∧ Roundtrips (sp "==1.*") := by decide
 example : CmpOk (sp "~=1.0", none) (ver "1.5") ∧ mcmp (sp "~=1.0", none) (ver "1.5") = true := by
   refine ⟨⟨true, by decide⟩, by decide⟩
 example : key (sp "==1.0") = key (sp "==1.0.0") ∧ sp "==1.0" ≠ sp "==1.0.0" := by decide
 example : key (sp "===1.0") ≠ key (sp "===1.0.0") ∧ key (sp "===1.0A") = key (sp "===1.0a") := by decide
-example : (SS.ofString (Py.ofString "==1.0") (some true) >>= fun a =>
-           SS.ofString (Py.ofString "==1.0") (some false) >>= fun b => a.and b).toBool = false := by decide
+example : (SSet.ofString (Py.ofString "==1.0") (some true) >>= fun a =>
+           SSet.ofString (Py.ofString "==1.0") (some false) >>= fun b => a.and b).toBool = false := by decide
 
 /-- DESIGN §8 row 21 (known finding): a member `===1,0` makes `str()` unparsable -/
 theorem str_does_not_parse_back_with_comma :
     let T : SpecSet := ⟨[(⟨.arbitrary, Py.ofString "1,0"⟩, none)], none⟩
-    SS.ofString (T.str T.specs) none = .error "InvalidSpecifier" ∧ ¬ Roundtrips (⟨.arbitrary, Py.ofString "1,0"⟩) := by
+    SSet.ofString (T.str T.specs) none = .error "InvalidSpecifier" ∧ ¬ Roundtrips (⟨.arbitrary, Py.ofString "1,0"⟩) := by
   decide
 
 /-- DESIGN §8 row 22 / C20 finding F02 (not a C05 violation: each string is deterministic for its object and
 parses back to an equal set): which of two equal-but-differently-spelled clauses is printed depends on the
 order they were supplied in -/
 theorem str_depends_on_supply_order :
-    (SS.ofString (Py.ofString "==1.0,==1.0.0") none).map (fun T => T.str T.specs) = .ok (Py.ofString "==1.0") ∧
-    (SS.ofString (Py.ofString "==1.0.0,==1.0") none).map (fun T => T.str T.specs) = .ok (Py.ofString "==1.0.0") := by
+    (SSet.ofString (Py.ofString "==1.0,==1.0.0") none).map (fun T => T.str T.specs) = .ok (Py.ofString "==1.0") ∧
+    (SSet.ofString (Py.ofString "==1.0.0,==1.0") none).map (fun T => T.str T.specs) = .ok (Py.ofString "==1.0.0") := by
   decide
 
 end C05
